@@ -33,9 +33,11 @@ def parse_annotations():
                         kv[k] = v
                 pending = kv
                 continue
-            if pending is not None and '#[kani::proof' in ln:
+            if pending is not None and ('#[kani::proof' in ln or pending.get('_seen_proof')):
+                pending['_seen_proof'] = True
                 mm = FN.search(ln)
                 if mm:
+                    pending.pop('_seen_proof', None)
                     pending['harness'] = mm.group(1)
                     pending['file'] = f
                     pending['props'] = pending.get('props', '').split(',')
@@ -91,7 +93,7 @@ def run_kani(stage_dir, harnesses, timeout_s, jobs=16, extra=None, log_path=None
     if not os.path.exists(out_json):
         return None, log   # compile error or crash
     d = json.load(open(out_json))
-    stats = {x['harness_id']: x.get('cbmc_stats', {}) for x in d.get('cbmc', [])}
+    stats = {x['harness_id']: (x.get('cbmc_stats') or {}) for x in d.get('cbmc', [])}
     errs = {x['harness_id']: x for x in d.get('error_details', [])}
     for r in d.get('verification_results', {}).get('results', []):
         hid = r['harness_id']
